@@ -4,17 +4,17 @@ ENTRY = dict(
          "random cut points), andybalholm/brotli (quality 0/5/9/11, lgwin 10..22, Flush at cut points) and klauspost zstd (fastest/default/better/best, streaming with one "
          "frame per piece = generated chunkings, and one-shot Single_Segment encodes; frame headers parsed by the runner, declared Window_Size handed to the model) and handed to decompressCert through hooks/verif_c21.go; variations: valid, declared "
          "length +-1, extra decompressed bytes, unadvertised / unknown algorithm, truncated and bit-flipped streams, declared length "
-         "above the 256 KiB limit; fixed corpus first (F-21a/F-21b/F-33 witnesses, messages of 70/130/200 KiB and exactly 256 KiB, limit+1); clients reconfigured through the public API between two BuildHandshakeState calls, 'advertised' read back from the final ClientHello bytes; CompressedCertificate marshal/unmarshal on "
+         "above the 256 KiB limit; fixed corpus first (F-21a/F-21b/F-33 witnesses, messages of 70/130/200 KiB and exactly 256 KiB, limit+1); clients reconfigured through the public API between two BuildHandshakeState calls, 'advertised' read back from the final ClientHello bytes; 44 live TLS 1.3 loopback handshakes against the scripted server sending the real certificate as CompressedCertificate (three algorithms, flushed/framed encodings, with and without a preceding CertificateRequest, declared length +-1, unadvertised algorithm); every recovered certificate is kept and deep-compared again after each later decompression and at the end; CompressedCertificate marshal/unmarshal on "
          "random fields. The chunking given to the model is the one the same decoder delivers when replayed with the code's buffer "
          "schedule. Distinct by (encoder, size class, flush count, variation); non-trivial when the decoder delivered more than one "
          "chunk or the message was refused.",
-    trusted_base=["hooks/verif_c21.go (fresh UConn + recording net.Conn around decompressCert)",
+    trusted_base=["shared harness/hs loopback driver + hooks/verif_server.go scripted server (live handshakes)", "hooks/verif_c21.go (fresh UConn + recording net.Conn around decompressCert)",
                   "brotli/zlib/zstd decoders are deterministic: the runner's replay of the decoder sees the chunking decompressCert saw",
                   "runner's reference structural parser of Certificate messages (parse_cert in the model is instantiated by it)"],
     assumes=["zstd frames declaring Window_Size above 8 MiB are refused (cap of fix 4697a7d for C33): recorded finding valid-stream-rejected/zstd-window-over-8MiB; C21_cc_recover_top carries the premise windows_ok",
              "decompressor modelled as an adversarial reader: any positive chunking of the decompressed bytes, clean end or error",
              "certificateMsgTLS13.unmarshal is a quantified function of the reconstructed message bytes",
-             "transcript/Finished verification of the end-to-end handshake is not driven here (no scripted server): decompressCert is called directly"],
+             "the transcript clause is proved for the order of the certificate flight only (client_cert_flight); that CertificateVerify/Finished verify is observed in live handshakes"],
     level_text="Proof for every chunking/ending of the reader and every message up to the limit (fixed code); the code as found is refuted "
                "(F-21a single Read, F-21b longer output) with witnesses replayed on the real code; compressors as adversarial readers + correspondence.",
 )
